@@ -64,9 +64,16 @@ def scalar_expr(ctx, depth=2, allow_none=True):
             ["lambda", ["lz"], ["call", "str", [["var", p]]],
              [["const", "1"]]]])), [scalar_expr(ctx, depth - 1)]]
     if choice == 13:
-        return ["call", "len", [["listcomp", ["var", "cx"], "cx",
-                                 ["const", d(st.sampled_from(
-                                     ["(1, 2)", "[]", "'abc'"]))]]]]
+        # the loop variable may be named like a template variable: it must
+        # shadow it inside the comprehension and leave it alone outside
+        cv = d(st.sampled_from(["cx", "s0", "s1", "id", "s2"]))
+        lc = ["call", "len", [["listcomp", ["var", cv], cv,
+                               ["const", d(st.sampled_from(
+                                   ["(1, 2)", "[]", "'abc'"]))]]]]
+        if cv != "cx" and d(st.booleans()):
+            # ... and read the template variable right afterwards
+            return ["binop", "and", lc, ["var", cv]]
+        return lc
     if choice == 14:
         return ["fstr", [["lit", d(st.sampled_from(["a", "{", "} ", "é"]))],
                          ["e", d(st.sampled_from(
